@@ -110,7 +110,7 @@ def fail(kind, msg, xml=None, extra=None):
 
 
 from kskm.common.config_misc import RequestPolicy
-from kskm.signer.policy import check_last_skr_and_new_skr
+from kskm.signer.policy import check_last_skr_and_new_skr, check_publish_safety, check_retire_safety
 PREV_RESP = [None]
 for i in range(30 * SCALE):
     nb = 1 + i % 9
@@ -135,6 +135,12 @@ for i in range(30 * SCALE):
             schema[j] = {"publish": ["ksk_current"], "sign": ["ksk_512"], "revoke": []}
         else:
             schema[j] = {"publish": [], "sign": ["ksk_next"], "revoke": []}
+    if i == 0:
+        schema = {j: {"publish": ["ksk_current"], "sign": ["ksk_current"], "revoke": []} for j in schema}
+    elif i % 7 == 1:
+        # a roll with revocation after an SKR signed by ksk_current alone: both sign the first slot, afterwards ksk_current is revoked and still signs
+        schema = {j: ({"publish": ["ksk_current", "ksk_next"], "sign": ["ksk_current", "ksk_next"], "revoke": []} if j == 1 else
+                      {"publish": ["ksk_next"], "sign": ["ksk_current", "ksk_next"], "revoke": ["ksk_current"]}) for j in schema}
     kskpol = ksrxml.default_zsk_policy(**{k: rand_dur() for k in ("publish_safety", "retire_safety", "max_validity", "min_validity", "max_overlap", "min_overlap")},
                                        algs=[("RSA", 8, 1024, 65537)] + ([("RSA", 10, 1024, 65537)] if any(schema[j]["sign"] == ["ksk_512"] for j in schema) else []))
     skr = skrgen.simulate_skr(rq, schema, KS, kskpol)
@@ -147,9 +153,21 @@ for i in range(30 * SCALE):
         continue
     resp = rk[1]
     # the tool compares the new SKR with the previous one between signing and writing (whatever the verdict, the response stays what was signed)
-    if PREV_RESP[0] is not None:
-        vlib.run_impl(check_last_skr_and_new_skr, PREV_RESP[0], resp, RequestPolicy())
-    PREV_RESP[0] = resp
+    if i == 0:
+        PREV0 = resp
+    for prev in ([PREV_RESP[0]] if PREV_RESP[0] is not None else []) + ([PREV0] if i % 7 == 1 else []):
+        vlib.run_impl(check_last_skr_and_new_skr, prev, resp, RequestPolicy())
+        vlib.run_impl(check_publish_safety, prev, resp, RequestPolicy())
+        vlib.run_impl(check_retire_safety, prev, resp, RequestPolicy())
+        count("safety-checks-between-signing-and-writing")
+    again = vlib.run_impl(skrgen.k_response, skr)
+    if again[0] != "ok" or again[1] != resp:
+        what = [f"bundle {n + 1}: keys {sorted(k.key_tag for k in b.keys)} (signed: {sorted(k.key_tag for k in a.keys)})"
+                for n, (a, b) in enumerate(zip(again[1].bundles, resp.bundles)) if a != b] if again[0] == "ok" else [again[2]]
+        fail("checked-then-written", "comparing the new SKR with the previous one changed the response that is then written: " + "; ".join(what)[:600], None,
+             {"schemas": [sorted(schema[j]["sign"]) + ["revoke:" + ",".join(schema[j]["revoke"])] for j in schema], "reference_document": ksrxml.render_skr(skr)[:6000]})
+    PREV_RESP[0] = again[1] if again[0] == "ok" else resp
+    resp = PREV_RESP[0]
     r = vlib.run_impl(skr_to_xml, resp)
     n_skr += 1
     count("emitted-skr")
